@@ -194,7 +194,7 @@ fn parse_bracket(pc: &[PC], mut i: usize) -> Option<Result<(At, usize), ()>> {
     Some(Ok((At::Br { neg, items }, i)))
 }
 
-fn class(s: &str, c: char) -> bool {
+pub fn class(s: &str, c: char) -> bool {
     match s {
         "alnum" => c.is_ascii_alphanumeric(),
         "alpha" => c.is_ascii_alphabetic(),
